@@ -13,6 +13,8 @@ import (
 	"verif/mc/props/c05"
 	"verif/mc/props/c06"
 	"verif/mc/props/c07"
+	"verif/mc/props/c14"
+	"verif/mc/props/c15"
 )
 
 type prop struct {
@@ -22,6 +24,8 @@ type prop struct {
 }
 
 var props = map[string]prop{
+	"C14": {"model_checking", c14.Main, func(r *core.Run, mode string, raw []byte) { c14.Replay(r, mode, raw) }},
+	"C15": {"model_checking", c15.Main, func(r *core.Run, mode string, raw []byte) { c15.Replay(r, raw) }},
 	"C07": {"model_checking", c07.Main, func(r *core.Run, mode string, raw []byte) { c07.Replay(r, raw) }},
 	"C06": {"fault_enumeration", c06.Main, func(r *core.Run, mode string, raw []byte) { c06.Replay(r, mode, raw) }},
 	"C05": {"model_checking", c05.Main, func(r *core.Run, mode string, raw []byte) { c05.Replay(r, mode, raw) }},
